@@ -623,8 +623,6 @@ func (n *nodeContext) insertValueConjunct(env *Environment, v Value, id CloseInf
 		}
 
 	case *Top:
-		n.updateCyclicStatus(id)
-
 		n.hasTop = true
 		n.updateConjunctInfo(TopKind, id, cHasTop)
 
